@@ -102,8 +102,8 @@ struct scen {
         unsigned char gd[2];
         unsigned char capb;
         unsigned char rc[NRC];
-        unsigned char sr[N];         /* read readiness per step (1 = a byte may be delivered) */
-        unsigned char sw[N];         /* write acceptance per step (1 = accepted) */
+        unsigned char sr[N];         /* read schedule per step: 1 = the read is refused (not ready); 0 = ready - the all-zero default is the eager schedule */
+        unsigned char sw[N];         /* write schedule per step: 1 = the write is refused */
         unsigned char vinit[4];
         unsigned char vacc[2];
         unsigned char vcb[2];        /* variable callbacks present: bit0 write, bit1 read */
@@ -283,7 +283,7 @@ static int io_read(char *ch)
 {
         W.reads_attempted++;
         ON_READ_ATTEMPT();
-        if ((SYM_SCHED_R || W.sched_r) && !(W.k >= 0 && W.k < N && S.sr[W.k]))
+        if ((SYM_SCHED_R || W.sched_r) && (W.k >= 0 && W.k < N && S.sr[W.k]))
                 return 0;
         if (W.in_pos >= S.in_len)
                 return 0;
@@ -296,7 +296,7 @@ static int io_write(char ch)
 {
         W.writes_attempted++;
         ON_WRITE_ATTEMPT((unsigned char)ch);
-        if ((SYM_SCHED_W || W.sched_w) && !(W.k >= 0 && W.k < N && S.sw[W.k]))
+        if ((SYM_SCHED_W || W.sched_w) && (W.k >= 0 && W.k < N && S.sw[W.k]))
                 return 0;
 #ifndef NO_OUTLOG
         if (W.out_n < OUTMAX)
@@ -327,6 +327,12 @@ static cat_return_state next_code(void)
          * keep every arm of the event FSM's return-code switch (incl. the excluded HOLD arm) alive in symbolic execution */
         if (W.hl_n > 0 && W.hl_n <= NH && W.hl_cmd[W.hl_n - 1] >= EVENT_FIRST_CMD)
                 return (cat_return_state)(EVENT_CODE);
+#endif
+#ifdef STATELESS_CODES
+        /* the handler's answer is a function of (command, kind), not of how many handlers ran before: needed when two
+         * runs with a different number of earlier invocations are compared */
+        if (W.hl_n > 0 && W.hl_n <= NH)
+                b = S.rc[(W.hl_cmd[W.hl_n - 1] * 4u + W.hl_kind[W.hl_n - 1]) % NRC];
 #endif
         W.rc_n++;
         return CODESET(b);
@@ -546,7 +552,7 @@ static void world_sample(void)
         S.gd[1] = (unsigned char)(SYM_FLAGS && G == 2 && rnd(4) == 0);
         S.capb = (unsigned char)(CAPB_MIN + rnd(CAPB_MAX - CAPB_MIN + 1));
         for (i = 0; i < NRC; i++) S.rc[i] = (unsigned char)rnd(256);
-        for (i = 0; i < N; i++) { S.sr[i] = (unsigned char)(rnd(4) != 0); S.sw[i] = (unsigned char)(rnd(4) != 0); }
+        for (i = 0; i < N; i++) { S.sr[i] = (unsigned char)(rnd(4) == 0); S.sw[i] = (unsigned char)(rnd(4) == 0); }
         rnd_bytes(S.vinit, sizeof(S.vinit));
         S.vacc[0] = (unsigned char)(rnd(3) ? 0 : rnd(3));
         S.vacc[1] = (unsigned char)(rnd(3) ? 0 : rnd(3));
